@@ -327,6 +327,14 @@ def stream_escapes(rng, quick):
     for t in tuples:
         s = b'"\\u' + bytes(t) + b'"'
         cases.append(pcase('L', 0, len(s), s, {'tags': ['escape-u']}))
+    # every byte value at every hex-digit position of a single escape and of the low half of a surrogate pair (the digit classes
+    # '0'-'9', 'A'-'F', 'a'-'f' and nothing else: not the control bytes that OR-ing 0x20 would fold onto digits, not bytes >= 0x80)
+    for pos in range(4):
+        for c in range(0x100):
+            d = bytearray(b'1a2B'); d[pos] = c
+            s = b'"\\u' + bytes(d) + b'"'; cases.append(pcase('L', 0, len(s), s, {'tags': ['escape-u', 'hex-digit-byte']}))
+            d = bytearray(b'DE1f'); d[pos] = c
+            s = b'"\\uD83D\\u' + bytes(d) + b'"'; cases.append(pcase('L', 0, len(s), s, {'tags': ['escape-u', 'hex-digit-byte']}))
     sur = [0xD7FF, 0xD800, 0xD801, 0xDBFF, 0xDC00, 0xDC01, 0xDFFF, 0xE000, 0x0041, 0xFFFF, 0xD83D, 0xDE00]
     for a in sur:
         for b2 in sur:
